@@ -120,11 +120,15 @@ V_VALUE = ['0', '1', '-1', '0.4', '0.5', '1.5', '3999', '4000', '1234567', '1e15
 V_PRIO = ['0', '-0.5', '1e309', '-1e309', 'NaN', 'x', '', '1e', '.5', '5.', '+1', '9' * 400, '0.' + '0' * 400 + '1', ' 1 ']
 V_URI = ['', 'urn:x', 'http://www.w3.org/1999/XSL/Transform', 'http://www.w3.org/XML/1998/namespace', 'http://www.w3.org/2000/xmlns/', ' ', 'a b', '{', 'é', 'x' * 3000, '#', '%zz']
 V_NAMES = ['', 'a', 'a b', 'a  b\tc', '*', 'x:*', 'nosuch:*', 'a:b', '#default', 'xsl', 'x', 'x x x', 'nosuch', ' ', 'A' * 3000, '1', 'a|b']
-ATTR_TYPES = {'num': V_NUM, 'char': V_CHAR, 'enum': V_ENUM, 'name': V_NAME, 'lang': V_LANG, 'enc': V_ENC, 'format': V_FORMAT, 'value': V_VALUE, 'prio': V_PRIO, 'uri': V_URI, 'names': V_NAMES}
+V_PATTERN = ['//', '/', 'a//', 'a/', '|', 'a|', '|a', '//|a', 'a|//', "id('x')//", "id('x')/", "key('k','v')//", "key('k','v')/a", "id('x')//a", '*[', 'a[1][2]', '@*', '@', 'a/@b/c', '@a/b', 'text()', 'node()', 'node()/node()',
+             'processing-instruction()', "processing-instruction('x')", 'processing-instruction(x)', 'comment()', 'a/..', '.', '..', 'a/.', '/*', '//*', '/@a', '//@*', 'child::a', 'attribute::a', 'descendant::a', 'self::a', 'a//b//c',
+             'p:*', 'nosuch:a', '*:a', 'x:*', 'a[//b]', 'a[position()=last()]', 'a[last()]', '@a[1]', '$v', 'f()', "id(id('x'))", "key('k', //a)", "key('nosuch', 'v')", '()', '(a)', 'a b', '*|*', '*' * 50, '/' * 7, 'a' + '/a' * 300,
+             'a' + '[1]' * 300, 'a[' * 200, '@*[.=.]|node()[..]|/', '', ' ', '///', '//.', '//..', '/..', 'a//.', "id('x')|key('k','v')|/|//a|a//b|@c|text()|comment()|processing-instruction()|node()"]
+ATTR_TYPES = {'pattern': V_PATTERN, 'num': V_NUM, 'char': V_CHAR, 'enum': V_ENUM, 'name': V_NAME, 'lang': V_LANG, 'enc': V_ENC, 'format': V_FORMAT, 'value': V_VALUE, 'prio': V_PRIO, 'uri': V_URI, 'names': V_NAMES}
 # (element, where: 'body' | 'top' | 'sort' | 'lre' | 'root', [(attribute, type, usual value or None, is an AVT)], content)
 INSTRUCTIONS = [
     ('xsl:number', 'body', [('value', 'value', '1234567', False), ('format', 'format', '1', True), ('lang', 'lang', None, True), ('letter-value', 'enum', None, True), ('grouping-separator', 'char', ',', True), ('grouping-size', 'num', '3', True)], ''),
-    ('xsl:number', 'body', [('level', 'enum', 'any', False), ('count', 'names', None, False), ('from', 'names', None, False), ('format', 'format', '1.a', True), ('grouping-separator', 'char', None, True), ('grouping-size', 'num', None, True)], ''),
+    ('xsl:number', 'body', [('level', 'enum', 'any', False), ('count', 'pattern', None, False), ('from', 'pattern', None, False), ('format', 'format', '1.a', True), ('grouping-separator', 'char', None, True), ('grouping-size', 'num', None, True)], ''),
     ('xsl:sort', 'sort', [('select', 'value', '.', False), ('lang', 'lang', None, True), ('data-type', 'enum', 'text', True), ('order', 'enum', None, True), ('case-order', 'enum', None, True)], ''),
     ('xsl:output', 'top', [('method', 'enum', 'xml', False), ('version', 'num', None, False), ('encoding', 'enc', None, False), ('omit-xml-declaration', 'enum', None, False), ('standalone', 'enum', None, False), ('doctype-public', 'uri', None, False),
                            ('doctype-system', 'uri', None, False), ('cdata-section-elements', 'names', None, False), ('indent', 'enum', None, False), ('media-type', 'uri', None, False), ('xalan:indent-amount', 'num', None, False)], ''),
@@ -133,8 +137,8 @@ INSTRUCTIONS = [
     ('xsl:element', 'body', [('name', 'name', 'e', True), ('namespace', 'uri', None, True), ('use-attribute-sets', 'names', None, False)], 'x'),
     ('xsl:attribute', 'body', [('name', 'name', 'a', True), ('namespace', 'uri', None, True)], 'v'),
     ('xsl:processing-instruction', 'body', [('name', 'name', 'p', True)], 'v?>'),
-    ('xsl:template', 'top', [('match', 'names', '*', False), ('priority', 'prio', None, False), ('mode', 'name', None, False), ('name', 'name', None, False)], 'x'),
-    ('xsl:key', 'top', [('name', 'name', 'kk', False), ('match', 'names', '*', False), ('use', 'value', '.', False)], ''),
+    ('xsl:template', 'top', [('match', 'pattern', '*', False), ('priority', 'prio', None, False), ('mode', 'name', None, False), ('name', 'name', None, False)], 'x'),
+    ('xsl:key', 'top', [('name', 'name', 'kk', False), ('match', 'pattern', '*', False), ('use', 'value', '.', False)], ''),
     ('xsl:strip-space', 'top', [('elements', 'names', '*', False)], ''),
     ('xsl:preserve-space', 'top', [('elements', 'names', '*', False)], ''),
     ('xsl:namespace-alias', 'top', [('stylesheet-prefix', 'name', 'x', False), ('result-prefix', 'name', '#default', False)], ''),
@@ -201,9 +205,39 @@ def hostile_attribute_sheet(r):
     root = ('<xsl:stylesheet xmlns:xsl="http://www.w3.org/1999/XSL/Transform" xmlns:x="urn:x" xmlns:xalan="http://xml.apache.org/xalan" %s>' % ' '.join(rootattrs)) if rootattrs else \
            '<xsl:stylesheet version="1.0" xmlns:xsl="http://www.w3.org/1999/XSL/Transform" xmlns:x="urn:x" xmlns:xalan="http://xml.apache.org/xalan">'
     sheet = (root + decl + ''.join(top) + '<xsl:template match="/"><out><xsl:for-each select="//*">' + ''.join(sorts) + '<i>' + ''.join(body) +
-             '<xsl:call-template name="r">' + ''.join(calls) + '</xsl:call-template><xsl:value-of select="format-number(1234.5, \'#,##0.0\')"/></i></xsl:for-each></out></xsl:template>'
+             '<xsl:call-template name="r">' + ''.join(calls) + '</xsl:call-template><xsl:value-of select="format-number(1234.5, \'#,##0.0\')"/></i></xsl:for-each><xsl:apply-templates select="//node()|//@*"/><xsl:value-of select="count(key(\'kk\', \'a\'))"/></out></xsl:template>'
              '<xsl:template name="r"><xsl:param name="n"/>r</xsl:template></xsl:stylesheet>')
     return sheet, params, '; '.join(desc)
+
+
+# ---- every instruction inside every other -----------------------------------------------------------------------
+# Containers restrict what their content may produce (an attribute, comment or processing instruction takes text only; a with-param
+# takes a value); the engine has a separate path for each combination, entered with every kind of context node.
+CONTAINERS = ['<xsl:attribute name="a">@</xsl:attribute>', '<xsl:comment>@</xsl:comment>', '<xsl:processing-instruction name="p">@</xsl:processing-instruction>', '<xsl:variable name="v#">@</xsl:variable><xsl:copy-of select="$v#"/>',
+              '<xsl:message>@</xsl:message>', '<e>@</e>', '<xsl:element name="el">@</xsl:element>', '<xsl:copy>@</xsl:copy>', '<xsl:if test="true()">@</xsl:if>', '<xsl:for-each select="SEL">@</xsl:for-each>',
+              '<xsl:for-each select="SEL"><xsl:sort select="."/>@</xsl:for-each>', '<xsl:choose><xsl:when test="false()"/><xsl:otherwise>@</xsl:otherwise></xsl:choose>',
+              '<xsl:call-template name="r"><xsl:with-param name="n">@</xsl:with-param></xsl:call-template>', '<xsl:apply-templates select="SEL" mode="down"><xsl:with-param name="n">@</xsl:with-param></xsl:apply-templates>',
+              '<xsl:value-of select="string-length(.)"/>@', '<nosuch:ext xmlns:nosuch="urn:nosuch" xsl:extension-element-prefixes="nosuch"><xsl:fallback>@</xsl:fallback></nosuch:ext>']
+LEAVES = ['<xsl:copy/>', '<xsl:copy><x/></xsl:copy>', '<xsl:copy-of select="."/>', '<xsl:copy-of select="SEL"/>', '<xsl:copy-of select="@*"/>', '<x y="1"/>', '<xsl:element name="q"/>', '<xsl:attribute name="b">v</xsl:attribute>',
+          '<xsl:comment>c</xsl:comment>', '<xsl:processing-instruction name="q">d</xsl:processing-instruction>', 'text', '<xsl:text>t</xsl:text>', '<xsl:value-of select="."/>', '<xsl:value-of select="." disable-output-escaping="yes"/>',
+          '<xsl:number/>', '<xsl:number level="any" format="a"/>', '<xsl:apply-templates/>', '<xsl:apply-templates select="SEL" mode="down"/>', '<xsl:apply-imports/>', '<xsl:call-template name="r"/>', '<xsl:message>m</xsl:message>',
+          '<xsl:variable name="w" select="."/>', '<xsl:copy use-attribute-sets="as"/>', '<x xsl:use-attribute-sets="as"/>', '']
+SELECTS = ['/*', '//*', '/', '//@*', '//text()', '//comment()', '//processing-instruction()', '/node()', '//node()', '//namespace::*', '.', '..', '/..', "document('')/*", '$rtf', '$rtf/*', "id('i')"]
+
+
+def nesting_sheet(r):
+    """returns (stylesheet, description): a leaf instruction wrapped in one to four containers, at a generated context node"""
+    inner = r.choice(LEAVES).replace('SEL', r.choice(SELECTS))
+    names = [re.sub(r'[ >/].*', '', inner)[1:] or 'text']
+    for n in range(r.choice([1, 2, 2, 3, 4])):
+        c = r.choice(CONTAINERS)
+        names.append(re.sub(r'[ >/].*', '', c)[1:])
+        inner = c.replace('SEL', r.choice(SELECTS)).replace('#', str(n)).replace('@', inner)
+    sheet = ((HEAD % '') + '<xsl:attribute-set name="as"><xsl:attribute name="s">1</xsl:attribute></xsl:attribute-set><xsl:variable name="rtf"><a>1</a>t<!--c--></xsl:variable>'
+             '<xsl:template match="/"><out><xsl:for-each select="%s"><i>%s</i></xsl:for-each></out></xsl:template>'
+             '<xsl:template name="r"><xsl:param name="n"/><r><xsl:copy-of select="$n"/></r></xsl:template><xsl:template match="node()|@*" mode="down"><xsl:param name="n"/><d><xsl:copy-of select="$n"/></d></xsl:template></xsl:stylesheet>'
+             % (r.choice(SELECTS[:10] + ['/*', '//*']), inner))
+    return sheet, ' in '.join(names)
 
 
 def check_reply(res, rp, what, payload, key_hint):
@@ -242,7 +276,7 @@ def case(ctx, idx, res):
         ctx.cache['good'] = d.call(cmd='transform', t=t, src='stream', sty='stream', tgt='stream', xml=GOOD_XML, xsl=GOOD_XSL).get('out')
         ctx.cache['since'] = 0
     kind = r.choice(['mutated-stylesheet', 'mutated-stylesheet', 'mutated-document', 'hostile-xpath-in-stylesheet', 'hostile-xpath-in-stylesheet', 'xpath-entry', 'xpath-entry', 'param', 'deep-document', 'deep-stylesheet',
-                     'capi', 'garbage', 'serializer-garbage', 'hostile-uri', 'hostile-uri', 'hostile-attribute', 'hostile-attribute', 'hostile-attribute', 'integer-conversion'])
+                     'capi', 'garbage', 'serializer-garbage', 'hostile-uri', 'hostile-uri', 'hostile-attribute', 'hostile-attribute', 'hostile-attribute', 'integer-conversion', 'nesting', 'nesting'])
     xml, info = gen_xml.gen_doc(r, size=r.choice([5, 12, 25]))
     g = gen_xslt.SGen(r, info, avoid=ctx.findings_avoid, max_templates=r.choice([2, 5, 8]), body_depth=r.choice([2, 3]))
     xsl = g.stylesheet()
@@ -297,6 +331,16 @@ def case(ctx, idx, res):
             check_reply(res, rp, 'transformation with %s' % what, {'kind': kind, 'stylesheet': xsl, 'document': GOOD_XML, 'params': hp, 'sty': sty}, 'attribute')
             if hp:
                 d.call(cmd='param', t=t, kind='clear', name='', value='')
+        elif kind == 'nesting':
+            xsl, what = nesting_sheet(r)
+            xml = '<!DOCTYPE doc [<!ATTLIST a id ID #IMPLIED>]><?top p?><doc xmlns:n="urn:n"><a id="i" x="1"><b/>t<!--c--><?pi d?></a><c/></doc>'
+            src, sty, tgt = r.choice(['stream', 'parsed', 'parsedx']), r.choice(['stream', 'compiled']), r.choice(['stream', 'stream', 'dom', 'callback'])
+            if tgt == 'callback':
+                src, sty = 'parsed', 'compiled'
+            rp = d.call(cmd='transform', t=t, src=src, sty=sty, tgt=tgt, xml=xml, xsl=xsl.encode('utf-8'))
+            res.evals += 1
+            res.count('nesting_cases')
+            check_reply(res, rp, 'transformation with %s' % what, {'kind': kind, 'stylesheet': xsl, 'document': xml, 'src': src, 'sty': sty, 'tgt': tgt}, 'nesting')
         elif kind == 'integer-conversion':
             # the string -> int / long / unsigned long conversions behind xalan:indent-amount, grouping-size and friends, called directly:
             # values around every power of two and ten that matters, signs, padding, and damaged forms
@@ -381,7 +425,7 @@ def case(ctx, idx, res):
                         indent=r.choice(['0', '1']), script=script)
             res.evals += 1
             res.count('serializer_calls')
-        elif kind in ('hostile-uri', 'hostile-attribute', 'integer-conversion'):
+        elif kind in ('hostile-uri', 'hostile-attribute', 'integer-conversion', 'nesting'):
             pass
         else:
             src = r.choice(['stream', 'stream', 'parsed', 'parsedx', 'builder', 'xerceswrap'])
@@ -410,6 +454,80 @@ def case(ctx, idx, res):
         e.request = dict(e.request or {}, kind=kind)
         raise
     res.sample = {'kind': kind}
+
+
+# ---- runs of operator tokens, exhaustively ---------------------------------------------------------------------------
+# What a damaged expression compiles to, and whether reading it stays inside the compiled form, depends on the exact number of tokens
+# (the two defects of this kind that libFuzzer found needed 42 minus signs and 16 asterisks).  Every frame x every unit x every
+# length 1..140, plus a tail token.
+SWEEP_FRAMES = ['%s', 'e=%s', '1%s', '%s1', 'id(%s)', '(%s)', 'a[%s]', 'nosuch(%s)', '-(%s)', 'count(%s)', '%s|a', 'a/%s', '$gp%s', "'s'%s", 'a[1][%s]', 'key(%s)', '(1 + %s)', 'concat(%s,%s)']
+SWEEP_UNITS = ['-', '*', '+', '/', '|', '=', '<', '!=', ' div ', ' or ', '-*', '*-', '(', ')', '[', ']', '..', '.', '@', '::', ',', '$', '- -', '*+', '|/']
+SWEEP_TAILS = ['', '-', ')', '1', '*', 'a']
+
+
+def sweep_case(ctx, idx, res):
+    d = ctx.drv(FLAVOUR)
+    frame, unit = SWEEP_FRAMES[idx // len(SWEEP_UNITS)], SWEEP_UNITS[idx % len(SWEEP_UNITS)]
+    res.sig = 'operator-sweep'
+    res.evals = 0
+    h = d.call(cmd='xdoc', xml=GOOD_XML, xerces=0)
+    if 'doc' not in h:
+        res.inconclusive.append('harness-exception: no document')
+        return
+    hd = h['doc'].decode()
+    try:
+        for L2 in range(2, 282):
+            # every length without a tail, and with one of the tail tokens in turn
+            L = L2 // 2
+            tail = '' if L2 % 2 == 0 else SWEEP_TAILS[1 + (L + idx + ctx.seed) % (len(SWEEP_TAILS) - 1)]
+            e = frame.replace('%s', unit * L + tail)
+            try:
+                rp = d.call(cmd='xpath', doc=hd, expr=e.encode('utf-8'), ctx='/0', ctxlist='/0', entry='generic' if L % 2 else 'all', ns='', vars='gp\x1fstr\x1f1\x1e')
+            except DriverDied as ex:
+                ex.request = dict(ex.request or {}, kind='operator-sweep')
+                raise
+            res.evals += 1
+            res.count('operator_runs')
+            if 'escaped' in rp:
+                res.viol('exception-escapes|xpath|%s' % rp['escaped'].decode('utf-8', 'replace').split(':')[0], 'XPath %r: exception escapes: %s' % (e[:200], rp['escaped'][:200]), {'expr': e})
+    finally:
+        if d.alive():
+            d.call(cmd='xdocdel', doc=hd)
+    res.sample = {'kind': 'operator-sweep', 'frame': frame, 'unit': unit}
+
+
+NEST_XML = '<!DOCTYPE doc [<!ATTLIST a id ID #IMPLIED>]><?top p?><doc xmlns:n="urn:n"><a id="i" x="1"><b/>t<!--c--><?pi d?></a><c/></doc>'
+OUTER = ['/*', '//*', '/', '//@*', '//text()', '//comment()', '//processing-instruction()', '/node()', '//node()', '//namespace::*', '$rtf/node()', "document('')//node()[position() < 9]"]
+
+
+def leaf_sweep_case(ctx, idx, res):
+    """every leaf instruction at every kind of context node (incl. the nodes only a Xerces DOM has), bare and inside one container, for the
+    three ways a source tree is built"""
+    d = ctx.drv(FLAVOUR)
+    leaf, outer = LEAVES[idx // len(OUTER)], OUTER[idx % len(OUTER)]
+    res.sig = 'leaf-sweep'
+    res.evals = 0
+    t = d.call(cmd='tnew')['t'].decode()
+    try:
+        for k, src in enumerate(['stream', 'parsed', 'parsedx']):
+            for cont in ('@', CONTAINERS[(idx + k + ctx.seed) % len(CONTAINERS)]):
+                inner = cont.replace('SEL', '.').replace('#', '0').replace('@', leaf.replace('SEL', '.'))
+                xsl = ((HEAD % '') + '<xsl:attribute-set name="as"><xsl:attribute name="s">1</xsl:attribute></xsl:attribute-set><xsl:variable name="rtf"><a>1</a>t<!--c--></xsl:variable>'
+                       '<xsl:template match="/"><out><xsl:for-each select="%s"><i>%s</i></xsl:for-each></out></xsl:template>'
+                       '<xsl:template name="r"><xsl:param name="n"/><r><xsl:copy-of select="$n"/></r></xsl:template><xsl:template match="node()|@*" mode="down"><xsl:param name="n"/><d><xsl:copy-of select="$n"/></d></xsl:template></xsl:stylesheet>'
+                       % (outer, inner))
+                try:
+                    rp = d.call(cmd='transform', t=t, src=src, sty='stream', tgt='stream', xml=NEST_XML, xsl=xsl.encode('utf-8'))
+                except DriverDied as ex:
+                    ex.request = dict(ex.request or {}, kind='leaf-sweep')
+                    raise
+                res.evals += 1
+                res.count('leaf_sweep_transformations')
+                check_reply(res, rp, 'transformation with %s at %s (source %s)' % (leaf[:40], outer, src), {'kind': 'leaf-sweep', 'stylesheet': xsl, 'document': NEST_XML, 'src': src}, 'leaf-sweep')
+    finally:
+        if d.alive():
+            d.call(cmd='tdel', t=t)
+    res.sample = {'kind': 'leaf-sweep', 'leaf': leaf[:40], 'context': outer}
 
 
 # ---- coverage-guided phase (thorough tier) ---------------------------------------------------------------
@@ -479,10 +597,12 @@ def main():
     chk.ensure(FLAVOUR, 'xvdrv')
     n = 2000 if chk.tier == 'quick' else 30000
     chk.run_cases('c03', 'case', range(n))
+    chk.run_cases('c03', 'sweep_case', range(len(SWEEP_FRAMES) * len(SWEEP_UNITS)))
+    chk.run_cases('c03', 'leaf_sweep_case', range(len(LEAVES) * len(OUTER)))
     if chk.tier == 'thorough' or os.environ.get('VERIF_FUZZ'):
         chk.ensure('fuzz', 'xvfuzz')
         chk.run_cases('c03', 'fuzz_case', range(16))
-    chk.finish(min_nontrivial=8, required_stats=('failures_reported', 'successes', 'still_usable', 'xpath_calls', 'serializer_calls', 'attribute_cases', 'integer_conversions'))
+    chk.finish(min_nontrivial=8, required_stats=('failures_reported', 'successes', 'still_usable', 'xpath_calls', 'serializer_calls', 'attribute_cases', 'integer_conversions', 'nesting_cases', 'operator_runs', 'leaf_sweep_transformations'))
 
 
 if __name__ == '__main__':
